@@ -14,7 +14,7 @@ func init() {
 		ID:    "C02",
 		Level: "exploration",
 		Rule: "inputs = atom catalogue, /repo testdata, llvm-stress programs, generated modules and, for each of them, W6 respellings (hex integers, unsigned-decimal spellings of negative integers, hex floats, redundantly quoted names, comments/blank lines, shuffled definitions); for every input x the parser accepts: y=print(parse x) must be accepted, print(parse y) must equal y byte for byte, and the object graphs of parse(x) and parse(y) must serialise identically (identity-bearing objects in bijection, the rest by value). " +
-			"llir-only: 35 hand-written inputs LLVM 14 rejects and the parser may accept (attribute-group spelling of the alignment in a function header, out-of-range and inexact decimal floats, hexadecimal doubles that are not values of half/float, operand or callee type text disagreeing with the definition, a named void call, out-of-range integer literals, repeated switch cases ...) go through the same three comparisons: the property quantifies over every input the parser accepts. " +
+			"llir-only: 37 hand-written inputs LLVM 14 rejects and the parser may accept (attribute-group spelling of the alignment in a function header, out-of-range and inexact decimal floats, hexadecimal doubles that are not values of half/float, operand or callee type text disagreeing with the definition, a named void call, out-of-range integer literals, repeated switch cases ...) go through the same three comparisons: the property quantifies over every input the parser accepts. " +
 			"non-trivial = an accepted input whose printed form differs from the input text (a normalisation happened); distinct by digest of x",
 		Gen:           genC02,
 		MinNontrivial: 100,
@@ -80,6 +80,9 @@ func c02LlirOnly(r *fw.Rec) {
 		"global-operand-type-text-disagrees":         "@g = addrspace(1) global [2 x i32] zeroinitializer\ndefine i32* @f() {\n  %p = getelementptr [2 x i32], [2 x i32]* @g, i32 0, i32 1\n  ret i32* %p\n}\n",
 		"global-operand-type-text-disagrees-in-load": "@g = global i64 0\ndefine i32 @f() {\n  %v = load i32, i32* @g\n  ret i32 %v\n}\n",
 		"global-operand-type-text-disagrees-in-init": "@g = global i64 0\n@p = global i32* @g\n",
+		// specialised metadata nodes without a field LLVM requires
+		"md-required-field-missing":   "!nm = !{!0, !1, !2, !3, !4, !5, !6, !7, !8, !9, !10, !11}\n!0 = !DILocation(line: 1)\n!1 = !DICommonBlock(name: \"a\")\n!2 = !DILexicalBlock(line: 1)\n!3 = !DILexicalBlockFile(discriminator: 1)\n!4 = !DINamespace(name: \"n\")\n!5 = !DIModule(name: \"m\")\n!6 = !DILocalVariable(name: \"x\")\n!7 = !DILabel(name: \"l\", line: 1)\n!8 = !DIImportedEntity(tag: DW_TAG_imported_module)\n!9 = !DIDerivedType(tag: DW_TAG_pointer_type, size: 64)\n!10 = !DITemplateTypeParameter(name: \"T\")\n!11 = !DITemplateValueParameter(name: \"v\")\n",
+		"md-required-field-missing-2": "!nm = !{!0, !1, !2, !3}\n!0 = !DIGlobalVariableExpression(expr: !DIExpression())\n!1 = !DISubroutineType()\n!2 = !DIMacroFile(line: 1)\n!3 = distinct !DICompileUnit(language: DW_LANG_C99, emissionKind: FullDebug)\n",
 		// an alias whose typed aliasee disagrees with the content type of the alias
 		"alias-typed-cast-aliasee-disagrees":   "@g = global i16 0\n@a = alias i8, i32* bitcast (i16* @g to i32*)\n",
 		"alias-typed-gep-aliasee-disagrees":    "@g = global [2 x i16] zeroinitializer\n@a = alias i8, i16* getelementptr ([2 x i16], [2 x i16]* @g, i32 0, i32 1)\n",
